@@ -40,6 +40,7 @@ def main(tier, replay=None):
     if replay:
         return runner.replay_file(chk, harness, replay, "ThreadTrace", "ThreadTrace.cfg", ())
     camp = runner.Campaign(chk, harness, "ThreadTrace", "ThreadTrace.cfg", per_process=True)
+    camp.confirm_tries = 8          # schedule-dependent: one further rejection within 8 re-runs of the script confirms
     runs = []
     for k in (2, 4, 8, 16):
         for _ in range(5 if quick else 20):
